@@ -179,7 +179,8 @@ pub fn run(rep: &mut Report) {
     rep.assumptions = std_assumptions();
     super::run_corpus(rep, replay);
     for es in 1..=2u32 {
-        for n in 2..=8u32 {
+        let (max_pairs, max_triples) = if tier == Tier::Thorough { (11u32, 8u32) } else { (8, 6) };
+        for n in 2..=max_pairs {
             let k = 1u64 << n;
             let sh = 32 - n;
             rep.exhaustive(&format!("PxE{}<{}> all {} pairs: + - * / (both forms), sqrt, round", es, n, k * k), k * k, move |i, l| {
@@ -193,7 +194,7 @@ pub fn run(rep: &mut Report) {
                 }
                 Ok(())
             });
-            if n <= 6 {
+            if n <= max_triples {
                 rep.exhaustive(&format!("PxE{}<{}> all {} triples: mul_add, mul_sub, sub_product", es, n, k * k * k), k * k * k, move |i, l| {
                     let (a, b, c) = (((i / (k * k)) << sh) as u32, (((i / k) % k) << sh) as u32, ((i % k) << sh) as u32);
                     for op in 8..11 {
